@@ -7,6 +7,7 @@ import (
 	"sort"
 	"strconv"
 	"strings"
+	"sync"
 	"testing"
 
 	res "github.com/jirenius/go-res"
@@ -37,6 +38,9 @@ type Reg struct {
 	Parallel bool     `json:"parallel,omitempty"`
 	NList    int      `json:"nlist,omitempty"` // number of listeners on the exact pattern
 	Marker   int      `json:"marker"`
+	// ListenerOnly makes this an AddListener call (no handler) on the pattern; it establishes the
+	// placeholder names of the node, so a later handler with other names is a registration conflict.
+	ListenerOnly bool `json:"listenerOnly,omitempty"`
 }
 
 // MountSpec describes a sub-mux. Prefix is its full literal prefix (without
@@ -63,6 +67,9 @@ type built struct {
 	regPanic  []bool
 	wantPanic []bool
 	hits      *[]int
+	// orphans: listeners remain on patterns without a handler; Serve would refuse such a mux
+	// (ValidateListeners), so lookups are outside the domain.
+	orphans bool
 }
 
 func fullPattern(root string, toks []string) string {
@@ -153,6 +160,17 @@ func build(pl Plan) (*built, error) {
 		return nil
 	}
 	seenStruct := map[string]bool{}
+	established := map[string]string{} // structural key -> placeholder names established by the first registration on the node
+	pendingListeners := map[string][]int{}
+	names := func(toks []string) string {
+		var n []string
+		for _, t := range toks {
+			if len(t) > 1 && t[0] == '$' {
+				n = append(n, t)
+			}
+		}
+		return strings.Join(n, ",")
+	}
 	for _, r := range pl.Regs {
 		rel := strings.Join(r.Full[prefixLen[r.At]:], ".")
 		full := fullPattern(pl.RootPath, r.Full)
@@ -160,6 +178,37 @@ func build(pl Plan) (*built, error) {
 			return nil, err
 		}
 		marker := r.Marker
+		if r.ListenerOnly {
+			sk := refmux.StructKey(full)
+			id := marker*10 + 9
+			want := false
+			// (a node whose first registration had no named placeholder has no names fixed yet)
+			if est := established[sk]; est != "" && est != names(r.Full) {
+				want = true
+			}
+			msg := catch(func() { muxes[r.At].AddListener(rel, func(*res.Event) { *b.hits = append(*b.hits, id) }) })
+			b.regPanic = append(b.regPanic, msg != "")
+			b.wantPanic = append(b.wantPanic, want)
+			if (msg != "") != want {
+				return b, fmt.Errorf("AddListener(%q) on mux %d: panicked=%v (%s), expected rejection=%v", rel, r.At, msg != "", msg, want)
+			}
+			if msg == "" {
+				if established[sk] == "" {
+					established[sk] = names(r.Full)
+				}
+				attached := false
+				for i := range b.entries {
+					if refmux.StructKey(b.entries[i].Pattern) == sk {
+						b.entries[i].Listeners = append(b.entries[i].Listeners, id)
+						attached = true
+					}
+				}
+				if !attached {
+					pendingListeners[sk] = append(pendingListeners[sk], id)
+				}
+			}
+			continue
+		}
 		h := res.Handler{
 			Call:     map[string]res.CallHandler{"m" + strconv.Itoa(marker): nil},
 			Group:    r.Group,
@@ -199,6 +248,9 @@ func build(pl Plan) (*built, error) {
 		if seenStruct[sk] {
 			want = true
 		}
+		if est := established[sk]; est != "" && est != names(r.Full) {
+			want = true // the node's placeholder names were fixed by an earlier listener
+		}
 		msg := catch(func() { muxes[r.At].AddHandler(rel, h) })
 		if msg == "" {
 			// further listeners via AddListener on the same mux
@@ -216,6 +268,11 @@ func build(pl Plan) (*built, error) {
 		}
 		if msg == "" {
 			seenStruct[sk] = true
+			if established[sk] == "" {
+				established[sk] = names(r.Full)
+			}
+			lids = append(lids, pendingListeners[sk]...)
+			delete(pendingListeners, sk)
 			b.entries = append(b.entries, refmux.Entry{Pattern: full, Marker: marker, Group: r.Group, Parallel: r.Parallel, Listeners: lids})
 		}
 	}
@@ -223,6 +280,10 @@ func build(pl Plan) (*built, error) {
 		if err := doLate(mi + 1); err != nil {
 			return nil, err
 		}
+	}
+	b.orphans = len(pendingListeners) > 0
+	if verr := b.root.ValidateListeners(); (verr != nil) != b.orphans {
+		return b, fmt.Errorf("ValidateListeners() = %v, but listeners without handler exist = %v", verr, b.orphans)
 	}
 	return b, nil
 }
@@ -682,6 +743,7 @@ func genPlan() *rapid.Generator[Plan] {
 			pl.Mounts = append(pl.Mounts, MountSpec{Prefix: prefix, Parent: parent, Split: rapid.IntRange(1, n).Draw(t, "split"), Mode: rapid.IntRange(0, 2).Draw(t, "mode")})
 		}
 		// patterns
+		seenSK := map[string]bool{}
 		np := rapid.IntRange(1, 12).Draw(t, "npat")
 		for i := 0; i < np; i++ {
 			var toks []string
@@ -743,6 +805,33 @@ func genPlan() *rapid.Generator[Plan] {
 				}
 			}
 			r.NList = rapid.SampledFrom([]int{0, 0, 1, 2}).Draw(t, "nlist")
+			skey := refmux.StructKey(strings.Join(toks, "."))
+			fresh := !seenSK[skey]
+			seenSK[skey] = true
+			// (a listener naming placeholders on a node whose handler uses anonymous ones is not generated: unspecified)
+			if fresh && len(params) > 0 && !dup(toks) && rapid.IntRange(0, 5).Draw(t, "prelistener") == 0 {
+				// a listener registered first on the same node, with the same or with other placeholder names
+				lt := append([]string(nil), toks...)
+				if rapid.Bool().Draw(t, "conflict") {
+					for k, tk := range lt {
+						if len(tk) > 1 && tk[0] == '$' {
+							lt[k] = tk + "q"
+							break
+						}
+					}
+				}
+				pl.Regs = append(pl.Regs, Reg{Full: lt, At: r.At, Marker: 100 + i, ListenerOnly: true})
+				if fmt.Sprint(lt) != fmt.Sprint(toks) && rapid.Bool().Draw(t, "retry") {
+					// after the conflicting handler was rejected, the pattern the listener named must still be registrable
+					pl.Regs = append(pl.Regs, r)
+					r2 := r
+					r2.Full = lt
+					r2.Marker = 200 + i
+					r2.Group = ""
+					pl.Regs = append(pl.Regs, r2)
+					continue
+				}
+			}
 			pl.Regs = append(pl.Regs, r)
 		}
 		return pl
@@ -789,11 +878,21 @@ func genNameFrom(pl Plan) *rapid.Generator[string] {
 			out = append(out, "")
 		}
 		n := strings.Join(out, ".")
-		if pl.RootPath != "" && rapid.IntRange(0, 9).Draw(t, "noroot") != 0 {
-			if n == "" {
-				return pl.RootPath
+		if pl.RootPath != "" {
+			switch k := rapid.IntRange(0, 14).Draw(t, "rootkind"); {
+			case k == 0: // no root path at all
+			case k == 1: // root path glued to the name without the separator
+				n = pl.RootPath + n
+			case k == 2: // root path with an extra character
+				n = pl.RootPath + "x." + n
+			case k == 3 && len(pl.RootPath) > 1: // truncated root path
+				n = pl.RootPath[:len(pl.RootPath)-1] + "." + n
+			default:
+				if n == "" {
+					return pl.RootPath
+				}
+				n = pl.RootPath + "." + n
 			}
-			n = pl.RootPath + "." + n
 		}
 		return n
 	})
@@ -807,6 +906,10 @@ func TestPropRouting(t *testing.T) {
 			t.Fatalf("%v", err)
 		}
 		nn := rapid.IntRange(1, 8).Draw(t, "nnames")
+		if b.orphans {
+			nn = 0
+			ev.Label("orphan-listener-plan")
+		}
 		for i := 0; i < nn; i++ {
 			var name string
 			if rapid.IntRange(0, 9).Draw(t, "junk") == 0 {
@@ -915,6 +1018,90 @@ func FuzzLookupNeverPanics(f *testing.F) {
 		i := int(which) % len(bs)
 		if msg, _ := checkLookup(bs[i], plans[i], name); msg != "" {
 			t.Fatal(msg)
+		}
+	})
+}
+
+// TestPropConcurrentLookups: lookups are made from many goroutines at once (the listener
+// goroutine routes requests while application goroutines call With/Resource); every result
+// must equal the sequential reference.
+func TestPropConcurrentLookups(t *testing.T) {
+	rapid.Check(t, func(rt *rapid.T) {
+		pl := genPlan().Draw(rt, "plan")
+		b, err := build(pl)
+		if err != nil {
+			rt.Fatalf("%v", err)
+		}
+		var names []string
+		for i := 0; i < 12; i++ {
+			names = append(names, genNameFrom(pl).Draw(rt, "name"))
+		}
+		if b.orphans {
+			return
+		}
+		type want struct {
+			marker int
+			params string
+			group  string
+			nilm   bool
+		}
+		wants := make([]want, len(names))
+		for i, n := range names {
+			best, _ := refmux.Route(b.entries, n)
+			if !refmux.ValidName(n) || best == nil {
+				wants[i] = want{nilm: true}
+				continue
+			}
+			wants[i] = want{marker: best.Marker, params: fmt.Sprint(refmux.Params(best.Pattern, n)), group: refmux.GroupOf(best, n)}
+		}
+		var wg sync.WaitGroup
+		errs := make(chan string, 64)
+		for g := 0; g < 8; g++ {
+			wg.Add(1)
+			go func(g int) {
+				defer wg.Done()
+				defer func() {
+					if v := recover(); v != nil {
+						select {
+						case errs <- fmt.Sprintf("GetHandler panicked under concurrent lookups: %v", v):
+						default:
+						}
+					}
+				}()
+				for rep := 0; rep < 60; rep++ {
+					i := (g + rep) % len(names)
+					n := names[i]
+					if !refmux.ValidName(n) {
+						b.root.GetHandler(n)
+						continue
+					}
+					mh := b.root.GetHandler(n)
+					w := wants[i]
+					var msg string
+					switch {
+					case mh == nil && !w.nilm:
+						msg = fmt.Sprintf("concurrent GetHandler(%q) returned nil, expected marker %d", n, w.marker)
+					case mh != nil && w.nilm:
+						msg = fmt.Sprintf("concurrent GetHandler(%q) returned marker %d, expected no match", n, markerOf(mh))
+					case mh != nil && (markerOf(mh) != w.marker || mh.Group != w.group || (len(mh.Params) > 0 || w.params != "map[]") && fmt.Sprint(mh.Params) != w.params):
+						msg = fmt.Sprintf("concurrent GetHandler(%q) returned marker %d params %v group %q, expected marker %d params %s group %q", n, markerOf(mh), mh.Params, mh.Group, w.marker, w.params, w.group)
+					}
+					if msg != "" {
+						select {
+						case errs <- msg:
+						default:
+						}
+						return
+					}
+				}
+			}(g)
+		}
+		wg.Wait()
+		close(errs)
+		pj, _ := json.Marshal(pl)
+		ev.Case(len(pl.Regs) > 1, evid.Hash("conc", string(pj), fmt.Sprint(names)), "concurrent-lookups")
+		for m := range errs {
+			rt.Fatalf("%s\nplan: %s", m, pj)
 		}
 	})
 }
